@@ -107,9 +107,7 @@ func (s *Service) ScheduleJob(ctx context.Context,
 		select {
 		case <-ctx.Done():
 			s.log.Trace().Str("job", name).Time("scheduled", runtime).Msg("Parent context done; job not running")
-			s.jobsMutex.Lock()
-			delete(s.jobs, name)
-			s.jobsMutex.Unlock()
+			s.removeJob(name, job)
 			finaliseJob(job)
 			monitorJobCancelled(class)
 		case <-job.cancelCh:
@@ -141,9 +139,7 @@ func (s *Service) ScheduleJob(ctx context.Context,
 				job.active.Store(false)
 				break
 			}
-			s.jobsMutex.Lock()
-			delete(s.jobs, name)
-			s.jobsMutex.Unlock()
+			s.removeJob(name, job)
 			s.log.Trace().Str("job", name).Time("scheduled", runtime).Msg("Timer triggered; job running")
 			job.active.Store(true)
 			monitorJobStartedOnTimer(class)
@@ -198,18 +194,14 @@ func (s *Service) SchedulePeriodicJob(ctx context.Context,
 			runtime, err := runtimeFunc(ctx)
 			if errors.Is(err, scheduler.ErrNoMoreInstances) {
 				s.log.Trace().Str("job", name).Msg("No more instances; period job stopping")
-				s.jobsMutex.Lock()
-				delete(s.jobs, name)
-				s.jobsMutex.Unlock()
+				s.removeJob(name, job)
 				finaliseJob(job)
 				monitorJobCancelled(class)
 				return
 			}
 			if err != nil {
 				s.log.Error().Str("job", name).Err(err).Msg("Failed to obtain runtime; periodic job stopping")
-				s.jobsMutex.Lock()
-				delete(s.jobs, name)
-				s.jobsMutex.Unlock()
+				s.removeJob(name, job)
 				finaliseJob(job)
 				monitorJobCancelled(class)
 				return
@@ -218,9 +210,7 @@ func (s *Service) SchedulePeriodicJob(ctx context.Context,
 			select {
 			case <-ctx.Done():
 				s.log.Trace().Str("job", name).Time("scheduled", runtime).Msg("Parent context done; job not running")
-				s.jobsMutex.Lock()
-				delete(s.jobs, name)
-				s.jobsMutex.Unlock()
+				s.removeJob(name, job)
 				finaliseJob(job)
 				monitorJobCancelled(class)
 				return
@@ -360,6 +350,16 @@ func (s *Service) CancelJobs(ctx context.Context, prefix string) {
 		// It is possible that the job has been removed whist we were iterating, so use the non-erroring version of cancel.
 		s.CancelJobIfExists(ctx, name)
 	}
+}
+
+// removeJob removes a job from the jobs list, provided that it is still the job known by that name:
+// the name could have been cancelled and scheduled again since the job's goroutine last looked.
+func (s *Service) removeJob(name string, job *job) {
+	s.jobsMutex.Lock()
+	if s.jobs[name] == job {
+		delete(s.jobs, name)
+	}
+	s.jobsMutex.Unlock()
 }
 
 // finaliseJob tidies up a job that is no longer in use.
